@@ -19,7 +19,7 @@ CHECKS = {
    "5/C02"),
  "C03": ("vrt",
    "bounded-exhaustive enumeration of SEQUENCE/SET shapes x presence patterns with random payloads, preamble/reference/decode oracles",
-   "All 142 SEQUENCE + 142 SET shapes with <= 3 components (plus a nested family and a wide family with 63..130 OPTIONAL/DEFAULT root components / 63..70 extension additions, whose patterns are sampled) are compiled through the real pipeline; for each all 2^k presence patterns x 3 payloads are encoded: preamble computed from the shape, full bits == reference, decode returns the presence written, refusal only ExtensionFieldsInconsistent for the documented pattern - and for that pattern the reference encoder's bits (what a peer may send) must decode to the pattern.",
+   "All 142 SEQUENCE + 142 SET shapes with <= 3 components (plus a nested family and a wide family with 63..130 OPTIONAL/DEFAULT root components / 63..70 extension additions, whose patterns are sampled) are compiled through the real pipeline; for each all 2^k presence patterns x 8 payloads are encoded: preamble computed from the shape, full bits == reference, decode returns the presence written, refusal only ExtensionFieldsInconsistent for the documented pattern - and for that pattern the reference encoder's bits (what a peer may send) must decode to the pattern.",
    "Component types rotate through six small types; between N and 63 components nothing is covered, the wide family is sampled.",
    "5/C03"),
  "C05": ("vrt",
